@@ -212,6 +212,8 @@ def _plan(script, is_target, payload, persistent, kinds_status=(503, 500, 429), 
         if kind == 'status':
             # which status a fault shows up as rotates with the attempt AND the case, so that every code also occurs as the first fault
             return ('status', kinds_status[(state['n'] + phase) % len(kinds_status)] if not persistent else 503, whole(pos) if request.method not in ('GET', 'HEAD') else 0)
+        if kind == 'html':
+            return ('html', 400)
         if kind == 'auth':
             return ('auth',)
         return None
